@@ -310,6 +310,9 @@ def table_rows(tables, f, marker):
         raise MachineryError(f"no CELLS table for {fkey(f)} / marker {marker}") from None
 
 
+UNIT_TEXT = {"word": "percent", "ratio": "m/s", "apostrophe": "Pa's", "parenquote": "arcmin (')", "spaced": "kg m", "numberlike": "10"}
+
+
 def schema_dict(conc, s):
     """Concrete schema dictionary of an abstract schema (keys may be missing, names may be bad)."""
     sch = {}
@@ -325,6 +328,8 @@ def schema_dict(conc, s):
         fd = {"name": n, "type": f["type"]}
         if f["form"] != "absent":
             fd["fill"] = conc.fill_object(f)
+        if f.get("unit"):
+            fd["unit"] = UNIT_TEXT[f["unit"]]
         fields.append(fd)
     if "fields" in s["keys"]:
         sch["fields"] = fields
@@ -401,7 +406,7 @@ def terse_string(schema):
         return None
     out = f"d{d}m{m}:"
     for f in schema["fields"]:
-        if any(ch in f["name"] for ch in "():"):
+        if any(ch in f["name"] for ch in "():") or "unit" in f:     # the notation has no place for a unit
             return None
         spec = TERSE_CHAR[f["type"]]
         if "fill" in f:
@@ -1020,7 +1025,7 @@ def load_model(tier, chk):
 
 def abstract_of(case, producer="dict"):
     s = case["s"]
-    a = dict(delim=s["delim"], missing=s["missing"], fields=[{k: f[k] for k in ("name", "type", "fa", "fb", "form")} for f in s["fields"]], producer=producer)
+    a = dict(delim=s["delim"], missing=s["missing"], fields=[{k: f[k] for k in ("name", "type", "fa", "fb", "form", "unit") if k in f} for f in s["fields"]], producer=producer)
     a["salt"] = zlib.crc32(json.dumps(a, sort_keys=True).encode())
     rng = random.Random(f"{SEED}|{a['salt']}|np")
     a["np"] = [f["type"] in ("float", "complex", "boolean") and rng.random() < 0.3 for f in a["fields"]]
